@@ -40,6 +40,8 @@ type SubSpec struct {
 	Nodes         []NodeSpec   `json:"nodes"`
 	StartSucc     []int        `json:"start_succ"`
 	StartBranches []BranchSpec `json:"start_branches,omitempty"`
+	IntBefore     []int        `json:"int_before,omitempty"` // interrupt points inside the nested graph (oracle only)
+	IntAfter      []int        `json:"int_after,omitempty"`
 }
 
 const subBase = 1000
@@ -72,6 +74,7 @@ type NodeSpec struct {
 	Pre      string       `json:"pre,omitempty"`    // state pre handler (Case.State only): value | stream | wrap
 	Post     string       `json:"post,omitempty"`   // state post handler: value | stream | wrap
 	Static   bool         `json:"static,omitempty"` // workflow only: SetStaticValue — the framework merges a one-chunk stream of its own into the node's input
+	Rerun    int          `json:"rerun,omitempty"`  // stream-input kinds: the first Rerun executions close the input and return compose.InterruptAndRerun (oracle only)
 }
 
 // Case is one streaming run.
@@ -318,6 +321,26 @@ func genCase(r *lib.Rng, tier string) *Case {
 			}
 		}
 		c.IntBefore, c.IntAfter = uniqInts(c.IntBefore), uniqInts(c.IntAfter)
+	}
+	// interrupts raised by a node (InterruptAndRerun) or inside a nested graph: the run is resumed until it
+	// completes; these exits are not in the model, the oracle judges the completed run
+	if len(c.Nodes) > 0 && !c.Free && r.Chance(1, 12) {
+		rerunnable := func(k string) bool { return k == "xform" || k == "conv" || k == "ident" || k == "coll" }
+		x := r.Intn(len(c.Nodes))
+		switch n := &c.Nodes[x]; {
+		case n.Sub != nil && len(n.Sub.Nodes) > 0:
+			y := r.Intn(len(n.Sub.Nodes))
+			if r.Chance(1, 2) {
+				n.Sub.IntBefore = []int{y}
+			} else {
+				n.Sub.IntAfter = []int{y}
+			}
+			if sn := &n.Sub.Nodes[y]; rerunnable(sn.Kind) && r.Chance(1, 3) {
+				sn.Rerun = 1
+			}
+		case rerunnable(n.Kind) && !n.Fail:
+			n.Rerun = r.Range(1, 2)
+		}
 	}
 	switch x := r.Intn(8); {
 	case x < 3:
